@@ -74,21 +74,30 @@ Definition in_tx (p : pc) : bool := match p with PRead | PWrite | PEnd => true |
 
 Definition idle (s : state) : Prop := mem_view s = disk s /\ txd s = None.
 
-(** What the shared counters look like, by the position of the mutex owner. *)
-Definition data_ok (ths : list thread) (s : state) : Prop :=
+(** the address cache holds only indices of [n0, b) *)
+Definition cache_lt (n0 : N) (s : state) (b : N) : Prop :=
+  forall i, In i (cache s) -> n0 <= i < b.
+
+(** What the shared data look like, by the position of the mutex owner. *)
+Definition data_ok (ths : list thread) (n0 : N) (s : state) : Prop :=
   match mtx s with
-  | None => idle s
+  | None => idle s /\ cache_lt n0 s (disk s)
   | Some t =>
     match nth_error ths t, nth_error (ts s) t with
     | Some th, Some x =>
       match t_pc x with
-      | PWrite => idle s /\ (th_n th <> 0 -> t_reg x = disk s)
-      | PEnd => mem_view s = disk s /\
-                (if th_n th =? 0 then txd s = None
-                 else t_reg x = disk s /\ txd s = Some (t_reg x + th_n th))
-      | PCallback => txd s = None /\
-                (if th_n th =? 0 then mem_view s = disk s else disk s = t_reg x + th_n th)
-      | _ => idle s
+      | PWrite => idle s /\ cache_lt n0 s (disk s) /\ (reads th = true -> t_reg x = disk s)
+      | PEnd =>
+        let c := count_of th (t_reg x) in
+        if c =? 0 then idle s /\ cache_lt n0 s (disk s)
+        else t_reg x = disk s /\ txd s = Some (t_reg x + c) /\
+             (if is_ext th then mem_view s = t_reg x + c /\ cache_lt n0 s (t_reg x + c)
+              else mem_view s = disk s /\ cache_lt n0 s (disk s))
+      | PCallback =>
+        txd s = None /\ cache_lt n0 s (disk s) /\
+        (if is_ext th || (th_n th =? 0) then mem_view s = disk s
+         else disk s = t_reg x + th_n th /\ n0 <= t_reg x)
+      | _ => idle s /\ cache_lt n0 s (disk s)
       end
     | _, _ => False
     end
@@ -98,15 +107,22 @@ Record Inv (ths : list thread) (n0 : N) (s : state) : Prop := {
   inv_len : length (ts s) = length ths;
   inv_mtx : forall t x, nth_error (ts s) t = Some x ->
             (in_cs (t_pc x) = true <-> mtx s = Some t);
+  inv_rd : readers s = [];
   inv_wr : forall t x, nth_error (ts s) t = Some x ->
             (in_tx (t_pc x) = true <-> wr s = Some t);
-  inv_data : data_ok ths s;
+  inv_data : data_ok ths n0 s;
   inv_lo : n0 <= disk s;
   inv_iss : indices s = rangeN n0 (disk s - n0);
   inv_wdom : forall t, wr s = Some t -> (t < length (ts s))%nat
 }.
 
-Definition all_held (ths : list thread) : Prop := Forall (fun th => th_held th = true) ths.
+(** the locking discipline: every thread takes the mutex exclusively around
+    its whole transaction; a recovery transaction commits (the rolled back one
+    is the eager-memory finding of C08/C10, not a scheduling matter) *)
+Definition disciplined (th : thread) : Prop :=
+  th_held th = true /\ th_shared th = false /\ (is_ext th = true -> th_commits th = true).
+
+Definition all_held (ths : list thread) : Prop := Forall disciplined ths.
 
 Lemma init_inv ths n0 c : all_held ths -> Inv ths n0 (init ths n0 c).
 Proof.
@@ -115,17 +131,18 @@ Proof.
   - intros t x H. rewrite nth_error_map in H.
     destruct (nth_error ths t) as [th|] eqn:E; [|discriminate]. inv H. simpl.
     apply nth_error_In in E. unfold all_held in Hh. rewrite Forall_forall in Hh.
-    unfold first_pc. rewrite (Hh _ E). simpl. split; discriminate.
+    destruct (Hh _ E) as (Hd & _). unfold first_pc. rewrite Hd. simpl. split; discriminate.
+  - reflexivity.
   - intros t x H. rewrite nth_error_map in H.
     destruct (nth_error ths t) as [th|] eqn:E; [|discriminate]. inv H. simpl.
     unfold first_pc. destruct (th_held th); simpl; split; discriminate.
-  - unfold data_ok, idle, mem_view; simpl. destruct c; auto.
+  - unfold data_ok, idle, mem_view, cache_lt; simpl. split; [destruct c; auto|]. intros i [].
   - lia.
   - unfold indices; simpl. now rewrite N.sub_diag.
   - discriminate.
 Qed.
 
-Lemma held_at ths t th : all_held ths -> nth_error ths t = Some th -> th_held th = true.
+Lemma held_at ths t th : all_held ths -> nth_error ths t = Some th -> disciplined th.
 Proof.
   intros Hh E. apply nth_error_In in E. unfold all_held in Hh.
   rewrite Forall_forall in Hh. auto.
@@ -151,30 +168,51 @@ Ltac wdom I Ex :=
           | (inv H; apply nth_error_Some; congruence) ]
   end.
 
+Ltac same_mtx t Ex Em I :=
+  let t' := fresh "t'" in let x' := fresh "x'" in let Hn := fresh "Hn" in let Hne := fresh "Hne" in
+  intros t' x' Hn; unfold set_pc in Hn; destruct (Nat.eq_dec t t') as [<-|Hne];
+  [ rewrite (nth_error_upd_eq _ _ _ _ Ex) in Hn; inv Hn; cbn; rewrite Em; split; auto
+  | rewrite (nth_error_upd_ne _ _ _ _ Hne) in Hn; exact (inv_mtx _ _ _ I _ _ Hn) ].
+
+Ltac same_wr t Ex Ew I :=
+  let t' := fresh "t'" in let x' := fresh "x'" in let Hn := fresh "Hn" in let Hne := fresh "Hne" in
+  intros t' x' Hn; unfold set_pc in Hn; destruct (Nat.eq_dec t t') as [<-|Hne];
+  [ rewrite (nth_error_upd_eq _ _ _ _ Ex) in Hn; inv Hn; cbn; rewrite Ew; split; auto
+  | rewrite (nth_error_upd_ne _ _ _ _ Hne) in Hn; exact (inv_wr _ _ _ I _ _ Hn) ].
+
+(* the stepping thread leaves the transaction: the writer lock becomes free *)
+Ltac end_wr t Ex Ew I :=
+  let t' := fresh "t'" in let x' := fresh "x'" in let Hn := fresh "Hn" in let Hne := fresh "Hne" in
+  let W' := fresh "W'" in let H := fresh "H" in
+  intros t' x' Hn; unfold set_pc in Hn; destruct (Nat.eq_dec t t') as [<-|Hne];
+  [ rewrite (nth_error_upd_eq _ _ _ _ Ex) in Hn; inv Hn; cbn; split; discriminate
+  | rewrite (nth_error_upd_ne _ _ _ _ Hne) in Hn;
+    pose proof (inv_wr _ _ _ I _ _ Hn) as W'; rewrite Ew in W';
+    split; intros H; [apply W' in H; congruence|discriminate] ].
+
 Lemma step_inv ths n0 s t s' :
   all_held ths -> Inv ths n0 s -> step ths s t = Some s' -> Inv ths n0 s'.
 Proof.
   intros Hh I Hs. unfold step in Hs.
   destruct (nth_error ths t) as [th|] eqn:Eth; [|discriminate].
   destruct (nth_error (ts s) t) as [x|] eqn:Ex; [|discriminate].
-  pose proof (held_at _ _ _ Hh Eth) as Hheld.
+  destruct (held_at _ _ _ Hh Eth) as (Hheld & Hsh & Hec).
   pose proof (inv_mtx _ _ _ I _ _ Ex) as Mt.
   pose proof (inv_wr _ _ _ I _ _ Ex) as Wt.
   pose proof (inv_data _ _ _ I) as D.
   pose proof (inv_lo _ _ _ I) as Lo.
   pose proof (inv_iss _ _ _ I) as Is.
-  assert (forall t' x', nth_error (ts s) t' = Some x' -> t <> t' ->
-            in_cs (t_pc x') = true -> mtx s = Some t -> False) as Excl.
-  { intros t' x' Hn Hne Hc Hm. apply (inv_mtx _ _ _ I _ _ Hn) in Hc. congruence. }
+  pose proof (inv_rd _ _ _ I) as Rd.
   destruct (t_pc x) eqn:Epc; simpl in Mt, Wt.
   - (* PLock *)
-    destruct (mtx s) eqn:Em; [discriminate|]. inv Hs.
-    constructor; cbn [ts mtx wr mem disk txd issued indices]; try (wdom I Ex).
+    destruct (mtx s) eqn:Em; [discriminate|]. rewrite Hsh in Hs. rewrite Rd in Hs at 1. simpl in Hs. inv Hs.
+    constructor; cbn [ts mtx readers wr mem lastm cache disk txd issued indices]; try (wdom I Ex).
     + unfold set_pc. rewrite length_upd. apply (inv_len _ _ _ I).
     + frame t Ex.
       * split; auto.
       * pose proof (inv_mtx _ _ _ I _ _ Hn) as M'. rewrite Em in M'.
         split; intros H; [apply M' in H; discriminate|congruence].
+    + exact Rd.
     + frame t Ex.
       * rewrite <- Wt. split; discriminate.
       * exact (inv_wr _ _ _ I _ _ Hn).
@@ -185,11 +223,12 @@ Proof.
   - (* PBegin *)
     destruct (wr s) eqn:Ew; [discriminate|]. inv Hs.
     assert (mtx s = Some t) as Em by (apply Mt; reflexivity).
-    constructor; cbn [ts mtx wr mem disk txd issued indices]; try (wdom I Ex).
+    constructor; cbn [ts mtx readers wr mem lastm cache disk txd issued indices]; try (wdom I Ex).
     + unfold set_pc. rewrite length_upd. apply (inv_len _ _ _ I).
     + frame t Ex.
       * rewrite Em. split; auto.
       * exact (inv_mtx _ _ _ I _ _ Hn).
+    + exact Rd.
     + frame t Ex.
       * split; auto.
       * pose proof (inv_wr _ _ _ I _ _ Hn) as W'. rewrite Ew in W'.
@@ -201,108 +240,121 @@ Proof.
   - (* PRead *)
     assert (mtx s = Some t) as Em by (apply Mt; reflexivity).
     assert (wr s = Some t) as Ew by (apply Wt; reflexivity).
-    unfold data_ok in D. rewrite Em, Eth, Ex, Epc in D. destruct D as [Dm Dt].
-    destruct (th_n th =? 0) eqn:En; inv Hs;
-      constructor; cbn [ts mtx wr mem disk txd issued indices]; try (wdom I Ex); try exact Lo; try exact Is.
-    + unfold set_pc. rewrite length_upd. apply (inv_len _ _ _ I).
-    + frame t Ex.
-      * rewrite Em. split; auto.
-      * exact (inv_mtx _ _ _ I _ _ Hn).
-    + frame t Ex.
-      * rewrite Ew. split; auto.
-      * exact (inv_wr _ _ _ I _ _ Hn).
-    + unfold data_ok; cbn [mtx ts]. rewrite Em, Eth. unfold set_pc.
-      rewrite (nth_error_upd_eq _ _ _ _ Ex). cbn. split; [split; assumption|].
-      intros H. apply N.eqb_eq in En. contradiction.
-    + rewrite length_upd. apply (inv_len _ _ _ I).
-    + intros t' x' Hn. destruct (Nat.eq_dec t t') as [<-|Hne].
-      * rewrite (nth_error_upd_eq _ _ _ _ Ex) in Hn. inv Hn. cbn. rewrite Em. split; auto.
-      * rewrite (nth_error_upd_ne _ _ _ _ Hne) in Hn. exact (inv_mtx _ _ _ I _ _ Hn).
-    + intros t' x' Hn. destruct (Nat.eq_dec t t') as [<-|Hne].
-      * rewrite (nth_error_upd_eq _ _ _ _ Ex) in Hn. inv Hn. cbn. rewrite Ew. split; auto.
-      * rewrite (nth_error_upd_ne _ _ _ _ Hne) in Hn. exact (inv_wr _ _ _ I _ _ Hn).
+    unfold data_ok in D. rewrite Em, Eth, Ex, Epc in D. destruct D as [[Dm Dt] Dc].
+    destruct (reads th) eqn:En; inv Hs;
+      constructor; cbn [ts mtx readers wr mem lastm cache disk txd issued indices]; try (wdom I Ex); try exact Lo; try exact Is; try exact Rd.
+    all: try (unfold set_pc; rewrite length_upd; apply (inv_len _ _ _ I)).
+    all: try (rewrite length_upd; apply (inv_len _ _ _ I)).
+    + same_mtx t Ex Em I.
+    + same_wr t Ex Ew I.
     + unfold data_ok; cbn [mtx ts]. rewrite Em, Eth.
       rewrite (nth_error_upd_eq _ _ _ _ Ex). cbn.
-      unfold idle, mem_view in *; cbn [mem disk txd]. auto.
+      unfold idle, mem_view, cache_lt in *; cbn [mem disk txd cache]. auto.
+    + same_mtx t Ex Em I.
+    + same_wr t Ex Ew I.
+    + unfold data_ok; cbn [mtx ts]. rewrite Em, Eth. unfold set_pc.
+      rewrite (nth_error_upd_eq _ _ _ _ Ex). cbn. split; [split; assumption|]. split; [assumption|].
+      intros H. congruence.
   - (* PWrite *)
     assert (mtx s = Some t) as Em by (apply Mt; reflexivity).
     assert (wr s = Some t) as Ew by (apply Wt; reflexivity).
-    unfold data_ok in D. rewrite Em, Eth, Ex, Epc in D. destruct D as [[Dm Dt] Dr].
-    inv Hs. constructor; cbn [ts mtx wr mem disk txd issued indices]; try (wdom I Ex); try exact Lo; try exact Is.
-    + unfold set_pc. rewrite length_upd. apply (inv_len _ _ _ I).
-    + frame t Ex.
-      * rewrite Em. split; auto.
-      * exact (inv_mtx _ _ _ I _ _ Hn).
-    + frame t Ex.
-      * rewrite Ew. split; auto.
-      * exact (inv_wr _ _ _ I _ _ Hn).
+    unfold data_ok in D. rewrite Em, Eth, Ex, Epc in D. destruct D as [[Dm Dt] [Dc Dr]].
+    destruct (count_of th (t_reg x) =? 0) eqn:Ec0; [|destruct (is_ext th) eqn:Ee]; inv Hs;
+      constructor; cbn [ts mtx readers wr mem lastm cache disk txd issued indices]; try (wdom I Ex); try exact Lo; try exact Is; try exact Rd.
+    all: try (unfold set_pc; rewrite length_upd; apply (inv_len _ _ _ I)).
+    all: try (same_mtx t Ex Em I).
+    all: try (same_wr t Ex Ew I).
     + unfold data_ok; cbn [mtx ts]. rewrite Em, Eth. unfold set_pc.
-      rewrite (nth_error_upd_eq _ _ _ _ Ex). cbn.
-      unfold mem_view in *; cbn [mem disk txd]. split; [assumption|].
-      destruct (th_n th =? 0) eqn:En; [assumption|].
-      apply N.eqb_neq in En. split; auto.
+      rewrite (nth_error_upd_eq _ _ _ _ Ex). cbn. rewrite Ec0. split; [split|]; assumption.
+    + (* extender writes rows and memory *)
+      assert (reads th = true) as Hr by (unfold reads, is_ext in *; destruct (th_ext th); congruence).
+      specialize (Dr Hr).
+      unfold data_ok; cbn [mtx ts]. rewrite Em, Eth. unfold set_pc.
+      rewrite (nth_error_upd_eq _ _ _ _ Ex). cbn. rewrite Ec0, Ee.
+      apply N.eqb_neq in Ec0.
+      split; [assumption|]. split; [reflexivity|]. split; [reflexivity|].
+      unfold cache_lt in *; cbn [cache]. intros i Hi. apply in_app_or in Hi. destruct Hi as [Hi|Hi].
+      * specialize (Dc _ Hi). lia.
+      * apply in_rangeN in Hi. lia.
+    + assert (reads th = true) as Hr.
+      { unfold reads, count_of, is_ext in *. destruct (th_ext th); [discriminate|].
+        rewrite Ec0. reflexivity. }
+      specialize (Dr Hr).
+      unfold data_ok; cbn [mtx ts]. rewrite Em, Eth. unfold set_pc.
+      rewrite (nth_error_upd_eq _ _ _ _ Ex). cbn. rewrite Ec0, Ee.
+      unfold mem_view in *; cbn [mem disk]. auto.
   - (* PEnd *)
     assert (mtx s = Some t) as Em by (apply Mt; reflexivity).
     assert (wr s = Some t) as Ew by (apply Wt; reflexivity).
-    unfold data_ok in D. rewrite Em, Eth, Ex, Epc in D. destruct D as [Dm Dt].
+    unfold data_ok in D. rewrite Em, Eth, Ex, Epc in D. cbv zeta in D.
     unfold after_tx in Hs. rewrite Hheld in Hs.
-    destruct (th_commits th); inv Hs;
-      constructor; cbn [ts mtx wr mem disk txd issued indices]; try (wdom I Ex).
-    + unfold set_pc. rewrite length_upd. apply (inv_len _ _ _ I).
-    + frame t Ex.
-      * rewrite Em. split; auto.
-      * exact (inv_mtx _ _ _ I _ _ Hn).
-    + frame t Ex.
-      * split; discriminate.
-      * pose proof (inv_wr _ _ _ I _ _ Hn) as W'. rewrite Ew in W'.
-        split; intros H; [apply W' in H; congruence|discriminate].
-    + unfold data_ok; cbn [mtx ts]. rewrite Em, Eth. unfold set_pc.
-      rewrite (nth_error_upd_eq _ _ _ _ Ex). cbn. split; [reflexivity|].
-      unfold mem_view in *; cbn [mem disk txd].
-      destruct (th_n th =? 0) eqn:En.
-      * rewrite Dt. assumption.
-      * destruct Dt as [Dr Dt]. rewrite Dt. reflexivity.
-    + destruct (th_n th =? 0); [rewrite Dt; exact Lo|].
-      destruct Dt as [Dr Dt]. rewrite Dt. lia.
-    + unfold indices in *. cbn [issued disk]. rewrite map_app, Is, map_map. cbn [snd]. rewrite map_id.
-      destruct (th_n th =? 0) eqn:En.
-      * apply N.eqb_eq in En. rewrite En, Dt. simpl. now rewrite app_nil_r.
-      * destruct Dt as [Dr Dt]. rewrite Dt.
-        replace (t_reg x + th_n th - n0) with ((disk s - n0) + th_n th) by lia.
-        rewrite rangeN_app. do 2 f_equal. lia.
-    + unfold set_pc. rewrite length_upd. apply (inv_len _ _ _ I).
-    + frame t Ex.
-      * rewrite Em. split; auto.
-      * exact (inv_mtx _ _ _ I _ _ Hn).
-    + frame t Ex.
-      * split; discriminate.
-      * pose proof (inv_wr _ _ _ I _ _ Hn) as W'. rewrite Ew in W'.
-        split; intros H; [apply W' in H; congruence|discriminate].
-    + unfold data_ok; cbn [mtx ts]. rewrite Em, Eth. unfold set_pc.
+    destruct (th_commits th) eqn:Ecm; inv Hs;
+      constructor; cbn [ts mtx readers wr mem lastm cache disk txd issued indices]; try (wdom I Ex); try exact Rd.
+    all: try (unfold set_pc; rewrite length_upd; apply (inv_len _ _ _ I)).
+    all: try (same_mtx t Ex Em I).
+    all: try (end_wr t Ex Ew I).
+    + (* commit: data *)
+      unfold data_ok; cbn [mtx ts]. rewrite Em, Eth. unfold set_pc.
       rewrite (nth_error_upd_eq _ _ _ _ Ex). cbn.
-      unfold idle, mem_view in *; cbn [mem disk txd]. auto.
+      destruct (count_of th (t_reg x) =? 0) eqn:Ec0.
+      * destruct D as [[Dm Dt] Dc]. rewrite Dt. split; [reflexivity|]. split; [assumption|].
+        unfold mem_view in *; cbn [mem disk].
+        destruct (is_ext th || (th_n th =? 0)) eqn:Eb; [exact Dm|].
+        apply orb_false_iff in Eb. destruct Eb as [Eb1 Eb2].
+        unfold count_of, is_ext in *. destruct (th_ext th); [discriminate|]. congruence.
+      * destruct D as (Dr & Dt & Dk). rewrite Dt. split; [reflexivity|].
+        destruct (is_ext th) eqn:Ee.
+        -- destruct Dk as [Dm Dc]. unfold cache_lt, mem_view in *; cbn [mem disk cache orb]. split; [exact Dc|]. destruct (mem s); [exact Dm|reflexivity].
+        -- destruct Dk as [Dm Dc]. apply N.eqb_neq in Ec0.
+           assert (count_of th (t_reg x) = th_n th) as Ecn.
+           { unfold count_of, is_ext in *. destruct (th_ext th); [discriminate|reflexivity]. }
+           split.
+           ++ unfold cache_lt in *. cbn [cache]. intros i Hi. specialize (Dc _ Hi). lia.
+           ++ cbn. destruct (th_n th =? 0) eqn:En0; [apply N.eqb_eq in En0; lia|]. rewrite Ecn. split; [reflexivity|lia].
+    + destruct (count_of th (t_reg x) =? 0).
+      * destruct D as [[Dm Dt] Dc]. rewrite Dt. exact Lo.
+      * destruct D as (Dr & Dt & Dk). rewrite Dt. lia.
+    + unfold indices in *. cbn [issued disk]. rewrite map_app, Is, map_map. cbn [snd]. rewrite map_id.
+      destruct (count_of th (t_reg x) =? 0) eqn:Ec0.
+      * destruct D as [[Dm Dt] Dc]. apply N.eqb_eq in Ec0. rewrite Ec0, Dt. simpl. now rewrite app_nil_r.
+      * destruct D as (Dr & Dt & Dk). rewrite Dt.
+        replace (t_reg x + count_of th (t_reg x) - n0) with ((disk s - n0) + count_of th (t_reg x)) by lia.
+        rewrite rangeN_app. do 2 f_equal. lia.
+    + (* rollback: only requests roll back *)
+      assert (is_ext th = false) as Ee.
+      { destruct (is_ext th); [specialize (Hec eq_refl); discriminate|reflexivity]. }
+      unfold data_ok; cbn [mtx ts]. rewrite Em, Eth. unfold set_pc.
+      rewrite (nth_error_upd_eq _ _ _ _ Ex). cbn.
+      destruct (count_of th (t_reg x) =? 0).
+      * destruct D as [[Dm Dt] Dc]. unfold idle, mem_view in *; cbn [mem disk txd]. auto.
+      * destruct D as (Dr & Dt & Dk). rewrite Ee in Dk. destruct Dk as [Dm Dc].
+        unfold idle, mem_view, cache_lt in *; cbn [mem disk txd cache]. auto.
     + exact Lo.
     + exact Is.
   - (* PCallback *)
     assert (mtx s = Some t) as Em by (apply Mt; reflexivity).
-    unfold data_ok in D. rewrite Em, Eth, Ex, Epc in D. destruct D as [Dt Dm].
-    unfold after_tx in Hs. rewrite Hheld in Hs. inv Hs.
-    constructor; cbn [ts mtx wr mem disk txd issued indices]; try (wdom I Ex); try exact Lo; try exact Is.
-    + unfold set_pc. rewrite length_upd. apply (inv_len _ _ _ I).
-    + frame t Ex.
-      * rewrite Em. split; auto.
-      * exact (inv_mtx _ _ _ I _ _ Hn).
-    + frame t Ex.
-      * rewrite <- Wt. split; discriminate.
-      * exact (inv_wr _ _ _ I _ _ Hn).
+    unfold data_ok in D. rewrite Em, Eth, Ex, Epc in D. destruct D as (Dt & Dc & Dm).
+    unfold after_tx in Hs. rewrite Hheld in Hs.
+    destruct (is_ext th || (th_n th =? 0)) eqn:Eb; [|destruct Dm as [Dm Dlo]]; inv Hs;
+    constructor; cbn [ts mtx readers wr mem lastm cache disk txd issued indices]; try (wdom I Ex); try exact Lo; try exact Is; try exact Rd.
+    all: try (unfold set_pc; rewrite length_upd; apply (inv_len _ _ _ I)).
+    all: try (same_mtx t Ex Em I).
+    all: try (frame t Ex; [rewrite <- Wt; split; discriminate|exact (inv_wr _ _ _ I _ _ Hn)]).
     + unfold data_ok; cbn [mtx ts]. rewrite Em, Eth. unfold set_pc.
       rewrite (nth_error_upd_eq _ _ _ _ Ex). cbn.
-      unfold idle, mem_view in *; cbn [mem disk txd].
-      destruct (th_n th =? 0); auto.
+      unfold idle, mem_view, cache_lt in *; cbn [mem disk txd cache]. auto.
+    + apply orb_false_iff in Eb. destruct Eb as [Eb1 Eb2]. apply N.eqb_neq in Eb2.
+      unfold data_ok; cbn [mtx ts]. rewrite Em, Eth. unfold set_pc.
+      rewrite (nth_error_upd_eq _ _ _ _ Ex). cbn.
+      unfold idle, mem_view, cache_lt in *; cbn [mem disk txd cache]. split; [auto|].
+      intros i Hi. apply in_app_or in Hi. destruct Hi as [Hi|Hi]; [auto|].
+      apply in_rangeN in Hi.
+      lia.
   - (* PUnlock *)
     assert (mtx s = Some t) as Em by (apply Mt; reflexivity).
     unfold data_ok in D. rewrite Em, Eth, Ex, Epc in D.
-    inv Hs. constructor; cbn [ts mtx wr mem disk txd issued indices]; try (wdom I Ex); try exact Lo; try exact Is.
+    rewrite Hsh in Hs. inv Hs.
+    constructor; cbn [ts mtx readers wr mem lastm cache disk txd issued indices]; try (wdom I Ex); try exact Lo; try exact Is; try exact Rd.
     + unfold set_pc. rewrite length_upd. apply (inv_len _ _ _ I).
     + frame t Ex.
       * split; discriminate.
@@ -350,9 +402,9 @@ Proof.
   apply nth_error_In in Hn. specialize (H _ Hn). destruct (t_pc x); try discriminate. reflexivity.
 Qed.
 
-
 Lemma inv_terminated_idle ths n0 s :
-  Inv ths n0 s -> terminated s = true -> mtx s = None /\ wr s = None /\ idle s.
+  Inv ths n0 s -> terminated s = true ->
+  mtx s = None /\ wr s = None /\ idle s /\ cache_lt n0 s (disk s).
 Proof.
   intros I T. pose proof (terminated_all_done _ T) as A.
   pose proof (inv_data _ _ _ I) as D. unfold data_ok in D.
@@ -378,6 +430,7 @@ Lemma no_deadlock ths n0 s :
 Proof.
   intros Hh I T.
   pose proof (inv_data _ _ _ I) as D. unfold data_ok in D.
+  pose proof (inv_rd _ _ _ I) as Rd.
   destruct (mtx s) as [t|] eqn:Em.
   - destruct (nth_error ths t) as [th|] eqn:Eth; [|contradiction].
     destruct (nth_error (ts s) t) as [x|] eqn:Ex; [|contradiction].
@@ -394,8 +447,11 @@ Proof.
       assert (in_cs (t_pc x') = true) as C by (destruct (t_pc x'); simpl in *; congruence).
       apply (inv_mtx _ _ _ I _ _ Ex') in C. rewrite Em in C. inv C.
       rewrite Ex in Ex'. inv Ex'. rewrite Epc in W. discriminate.
-    + destruct (th_n th =? 0); eexists; reflexivity.
+    + destruct (reads th); eexists; reflexivity.
+    + destruct (count_of th (t_reg x) =? 0); [|destruct (is_ext th)]; eexists; reflexivity.
     + destruct (th_commits th); eexists; reflexivity.
+    + destruct (is_ext th || (th_n th =? 0)); eexists; reflexivity.
+    + destruct (th_shared th); eexists; reflexivity.
   - unfold terminated in T.
     assert (exists x, In x (ts s) /\ pc_eqb (t_pc x) PDone = false) as (x & Hin & Hx).
     { clear -T. induction (ts s) as [|y l IH]; simpl in T; [discriminate|].
@@ -409,8 +465,53 @@ Proof.
         destruct M as [M _]; specialize (M eq_refl); discriminate. }
     assert (nth_error ths t <> None) as Hth.
     { apply nth_error_Some. rewrite <- (inv_len _ _ _ I). apply nth_error_Some. congruence. }
-    unfold step. destruct (nth_error ths t) as [th|]; [|congruence].
-    rewrite Ex, Epc, Em. eexists; reflexivity.
+    unfold step. destruct (nth_error ths t) as [th|] eqn:Eth; [|congruence].
+    destruct (held_at _ _ _ Hh Eth) as (_ & Hsh & _).
+    rewrite Ex, Epc, Em, Hsh, Rd. simpl. eexists; reflexivity.
+Qed.
+
+(* ------------------------- the last address follows the next index (any locking) *)
+
+(** Every write to the in-memory next index writes the last address with it
+    (commit handler, extendAddresses, loadAccountInfo): whatever the locking
+    and the schedule, the cached last address is the one below the cached
+    next index. *)
+Definition LastOk (s : state) : Prop := forall m, mem s = Some m -> lastm s = N.pred m.
+
+Lemma init_lastok ths n0 c : LastOk (init ths n0 c).
+Proof. intros m; simpl. destruct c; intros H; inv H. reflexivity. Qed.
+
+Lemma step_lastok ths s t s' : LastOk s -> step ths s t = Some s' -> LastOk s'.
+Proof.
+  intros L Hs. unfold step in Hs.
+  destruct (nth_error ths t) as [th|]; [|discriminate].
+  destruct (nth_error (ts s) t) as [x|]; [|discriminate].
+  destruct (t_pc x); try discriminate.
+  - destruct (mtx s); [discriminate|]. destruct (th_shared th); [|destruct (no_readers (readers s)); [|discriminate]];
+      inv Hs; exact L.
+  - destruct (wr s); [discriminate|]. inv Hs. exact L.
+  - destruct (reads th); inv Hs; [|exact L].
+    intros m Hm; cbn [mem lastm] in *. inv Hm. unfold last_view, mem_view.
+    destruct (mem s) as [m|] eqn:Em; [apply L; assumption|reflexivity].
+  - destruct (count_of th (t_reg x) =? 0); [|destruct (is_ext th)]; inv Hs; try exact L.
+    intros m Hm; cbn [mem lastm] in *. now inv Hm.
+  - destruct (th_commits th); inv Hs; exact L.
+  - destruct (is_ext th || (th_n th =? 0)); inv Hs; [exact L|].
+    intros m Hm; cbn [mem lastm] in *. now inv Hm.
+  - destruct (th_shared th); inv Hs; exact L.
+Qed.
+
+Lemma exec_lastok ths sched : forall s s', LastOk s -> exec ths s sched = Some s' -> LastOk s'.
+Proof.
+  induction sched as [|t rest IH]; intros s s' L He; simpl in He.
+  - inv He. exact L.
+  - destruct (step ths s t) as [s1|] eqn:Es; [|discriminate].
+    eapply IH; [|exact He]. eapply step_lastok; eauto.
+Qed.
+
+Lemma lastok_view s : LastOk s -> last_view s = N.pred (mem_view s).
+Proof.
+  intros L. unfold last_view, mem_view. destruct (mem s) as [m|] eqn:E; [apply L; assumption|reflexivity].
 Qed.
 
 (** Main safety statement, for all thread tables and all schedules. *)
@@ -427,8 +528,49 @@ Proof.
   assert (Inv ths n0 s) as I by (eapply exec_inv; eauto using init_inv).
   split; [eapply inv_nodup; eauto|]. split.
   - rewrite (inv_iss _ _ _ I). f_equal. rewrite (inv_count _ _ _ I). lia.
-  - intros T. destruct (inv_terminated_idle _ _ _ I T) as (Em & Ew & Dm & Dt).
+  - intros T. destruct (inv_terminated_idle _ _ _ I T) as (Em & Ew & [Dm Dt] & _).
     repeat split; auto. eapply inv_count; eauto.
+Qed.
+
+(** ... and for the other things the commit handler writes: once every
+    request has returned, the cached last address of the branch is the one
+    just below the committed next index (what a restarted manager derives),
+    and the address cache holds no index the database does not have. *)
+Theorem safe_last_and_cache ths n0 cached sched s :
+  all_held ths ->
+  exec ths (init ths n0 cached) sched = Some s ->
+  terminated s = true ->
+  last_view s = N.pred (disk s) /\
+  (forall i, In i (cache s) -> n0 <= i < disk s).
+Proof.
+  intros Hh He T.
+  assert (Inv ths n0 s) as I by (eapply exec_inv; eauto using init_inv).
+  destruct (inv_terminated_idle _ _ _ I T) as (_ & _ & [Dm _] & Dc).
+  split; [|exact Dc].
+  rewrite lastok_view; [now rewrite Dm|].
+  eapply exec_lastok; [apply init_lastok|exact He].
+Qed.
+
+(** the handed-out indices are among the consumed ones, in order *)
+Lemma handed_sub ths s : forall p, In p (handed ths s) -> In p (issued s).
+Proof. intros p H. unfold handed in H. apply filter_In in H. tauto. Qed.
+
+Lemma NoDup_map_filter {A B} (f : A -> B) (g : A -> bool) l :
+  NoDup (map f l) -> NoDup (map f (filter g l)).
+Proof.
+  induction l as [|a l IH]; simpl; intros H; [constructor|].
+  inv H. destruct (g a); simpl; [constructor|]; auto.
+  intros Hin. apply H2. apply in_map_iff in Hin. destruct Hin as (b & <- & Hb).
+  apply filter_In in Hb. apply in_map. tauto.
+Qed.
+
+Theorem handed_nodup ths n0 cached sched s :
+  all_held ths ->
+  exec ths (init ths n0 cached) sched = Some s ->
+  NoDup (map snd (handed ths s)).
+Proof.
+  intros Hh He. unfold handed. apply NoDup_map_filter.
+  exact (proj1 (safe_all_schedules _ _ _ _ _ Hh He)).
 Qed.
 
 Theorem progress_all_schedules ths n0 cached sched s :
@@ -439,20 +581,30 @@ Proof.
   intros Hh He. eapply no_deadlock; eauto. eapply exec_inv; eauto using init_inv.
 Qed.
 
-(** Threads whose call sites come from a table of sites that all hold the mutex. *)
+(** Threads whose call sites come from a table of sites that all hold the
+    mutex exclusively around the whole transaction.  [held st = true] means
+    exactly that; a thread made through such a site takes the mutex, and not
+    just for reading. *)
+Definition via_site {S} (held : S -> bool) (st : S) (th : thread) : Prop :=
+  held st = true -> th_held th = true /\ th_shared th = false.
+
 Lemma all_held_from_table {S} (tbl : list S) (held : S -> bool) ths :
   forallb held tbl = true ->
-  Forall (fun th => exists st, In st tbl /\ th_held th = held st) ths ->
+  Forall (fun th => (exists st, In st tbl /\ via_site held st th) /\
+                    (is_ext th = true -> th_commits th = true)) ths ->
   all_held ths.
 Proof.
   intros Ht Hf. rewrite forallb_forall in Ht. unfold all_held.
-  eapply Forall_impl; [|exact Hf]. intros th (st & Hin & ->). auto.
+  eapply Forall_impl; [|exact Hf]. intros th [(st & Hin & Hv) Hc].
+  destruct (Hv (Ht _ Hin)) as [H1 H2]. repeat split; assumption.
 Qed.
 
 (* ----------------------------------------- the hypothesis is necessary *)
 
-Definition unheld1 : thread := {| th_held := false; th_n := 1; th_commits := true |}.
-Definition held1 : thread := {| th_held := true; th_n := 1; th_commits := true |}.
+Definition unheld1 : thread := request false false 1 true.
+Definition held1 : thread := request true false 1 true.
+(** a site that takes the mutex for READING only (RLock) *)
+Definition shared1 : thread := request true true 1 true.
 
 (** A commits, B's whole request runs before A's commit handler. *)
 Definition witness_two_unheld : list nat := [0; 0; 0; 0; 1; 1; 1; 1]%nat.
@@ -460,6 +612,10 @@ Definition witness_two_unheld : list nat := [0; 0; 0; 0; 1; 1; 1; 1]%nat.
     when the other request reads the stale index *)
 Definition witness_held_then_unheld : list nat := [0; 0; 0; 0; 0; 1; 1; 1; 1]%nat.
 Definition witness_unheld_then_held : list nat := [0; 0; 0; 0; 1; 1; 1; 1; 1]%nat.
+(** two read locks do not exclude each other: same window *)
+Definition witness_two_shared : list nat := [0; 0; 0; 0; 0; 1; 1; 1; 1; 1]%nat.
+(** a read-locked request parked after its commit, then an exclusive one: it blocks *)
+Definition witness_shared_then_held : list nat := [0; 0; 0; 0; 0; 1]%nat.
 
 Lemma dup_not_NoDup (l : list N) : has_dup l = true -> ~ NoDup l.
 Proof.
@@ -480,6 +636,10 @@ Proof. destruct cached, n0; vm_compute; reflexivity. Qed.
 
 Theorem unsafe_unheld_then_held n0 cached :
   run_indices [unheld1; held1] n0 cached witness_unheld_then_held = Some [n0; n0].
+Proof. destruct cached, n0; vm_compute; reflexivity. Qed.
+
+Theorem unsafe_two_shared n0 cached :
+  run_indices [shared1; shared1] n0 cached witness_two_shared = Some [n0; n0].
 Proof. destruct cached, n0; vm_compute; reflexivity. Qed.
 
 Lemma two_equal_not_NoDup (a : N) : ~ NoDup [a; a].
@@ -519,22 +679,99 @@ Proof.
     exact (run_indices_dup _ _ _ _ _ (unsafe_unheld_then_held n0 cached)).
 Qed.
 
+(** A read lock is not enough: two requests through a site that takes the
+    mutex with RLock hand out the same index. *)
+Theorem unsafe_with_read_lock n0 cached :
+  exists sched s,
+    exec [shared1; shared1] (init [shared1; shared1] n0 cached) sched = Some s /\
+    ~ NoDup (indices s).
+Proof.
+  exists witness_two_shared.
+  exact (run_indices_dup _ _ _ _ _ (unsafe_two_shared n0 cached)).
+Qed.
+
+(** Recovery without the mutex.  Request 0 (mutex held) commits index n0 and
+    is between its commit and its commit handler; recovery (thread 1, no
+    mutex) reads the stale in-memory index n0, extends the branch through
+    n0+3 (rows, database next index n0+4, memory next index n0+4) and
+    commits; then request 0's stale handler puts the in-memory index back to
+    n0+1.  Memory and database now disagree; the next request (thread 2, mutex
+    held) is handed n0+1 - an index recovery had extended through - and its
+    row write moves the DATABASE's next index back to n0+2. *)
+Definition by_thread (s : state) (t : nat) : list N :=
+  map snd (filter (fun p => Nat.eqb (fst p) t) (issued s)).
+
+Definition recovery_threads (n0 : N) : list thread := [held1; extender false (n0 + 3); held1].
+Definition witness_recovery : list nat :=
+  [0; 0; 0; 0; 0;  1; 1; 1; 1; 1;  0; 0;  2; 2; 2; 2; 2; 2; 2]%nat.
+
+(** computed for a concrete start index (the arithmetic on a symbolic start
+    index does not reduce; any instance is a witness) *)
+Lemma recovery_final cached :
+  match exec (recovery_threads 5) (init (recovery_threads 5) 5 cached) witness_recovery with
+  | Some s => terminated s = true /\
+    by_thread s 1 = [5; 6; 7; 8] /\ by_thread s 2 = [6] /\
+    map snd (handed (recovery_threads 5) s) = [5; 6] /\
+    indices s = [5; 5; 6; 7; 8; 6] /\ disk s = 7 /\ mem_view s = 7
+  | None => False
+  end.
+Proof. destruct cached; vm_compute; repeat split; reflexivity. Qed.
+
+(** ... and right after the stale handler ran (before the third request),
+    memory says 6 while the database says 9 *)
+Lemma recovery_midway cached :
+  match exec (recovery_threads 5) (init (recovery_threads 5) 5 cached)
+             [0; 0; 0; 0; 0;  1; 1; 1; 1; 1;  0; 0]%nat with
+  | Some s => mem_view s = 6 /\ disk s = 9
+  | None => False
+  end.
+Proof. destruct cached; vm_compute; split; reflexivity. Qed.
+
+(** the same three threads when recovery holds the mutex: the witness schedule
+    is not executable (recovery blocks until the handler ran) *)
+Lemma recovery_held_blocks cached :
+  exec [held1; extender true 8; held1] (init [held1; extender true 8; held1] 5 cached)
+       [0; 0; 0; 0; 0; 1]%nat = None.
+Proof. destruct cached; vm_compute; reflexivity. Qed.
+
+(** In the form used by the property file: the schedule terminates; recovery
+    (thread 1) extended the branch through 5..8; the request made afterwards
+    (thread 2) was handed 6, one of those; the consumed indices have a
+    duplicate; and the database's next index is 7, below recovery's 9. *)
+Theorem unsafe_recovery_without_mutex cached :
+  exists sched s,
+    let ths := recovery_threads 5 in
+    exec ths (init ths 5 cached) sched = Some s /\ terminated s = true /\
+    by_thread s 1 = [5; 6; 7; 8] /\ by_thread s 2 = [6] /\
+    map snd (handed ths s) = [5; 6] /\
+    ~ NoDup (indices s) /\ disk s = 7.
+Proof.
+  pose proof (recovery_final cached) as H.
+  exists witness_recovery.
+  destruct (exec (recovery_threads 5) (init (recovery_threads 5) 5 cached) witness_recovery) as [s|] eqn:E;
+    [|contradiction].
+  exists s. cbv zeta. split; [exact E|].
+  destruct H as (Ht & H1 & H2 & Hh & Hi & Hd & _).
+  repeat (split; [assumption|]). split; [|assumption].
+  rewrite Hi. intros N1. inv N1. apply H3. simpl. tauto.
+Qed.
+
 (* ------------------------------------------- what each request obtained *)
 
 (** The indices handed to request [t]. *)
-Definition obtained (s : state) (t : nat) : list N :=
-  map snd (filter (fun p => Nat.eqb (fst p) t) (issued s)).
+Definition obtained (s : state) (t : nat) : list N := by_thread s t.
 
 Definition after_commit (p : pc) : bool :=
   match p with PCallback | PUnlock | PDone => true | _ => false end.
 
 (** Whatever the locking: a request has obtained nothing before its commit,
-    and exactly the [th_n] consecutive indices from the value it read once its
-    transaction committed; a rolled back request never obtains anything. *)
+    and exactly the consecutive indices from the value it read once its
+    transaction committed ([th_n] of them; for recovery: through its target);
+    a rolled back request never obtains anything. *)
 Definition Obt (ths : list thread) (s : state) : Prop :=
   forall t th x, nth_error ths t = Some th -> nth_error (ts s) t = Some x ->
     obtained s t = if th_commits th && after_commit (t_pc x)
-                   then rangeN (t_reg x) (th_n th) else [].
+                   then rangeN (t_reg x) (count_of th (t_reg x)) else [].
 
 Lemma obtained_app_other (t t' : nat) (l : list N) :
   t <> t' -> map snd (filter (fun p => Nat.eqb (fst p) t') (map (fun i : N => (t, i)) l)) = [].
@@ -552,7 +789,7 @@ Qed.
 
 Lemma init_obt ths n0 c : Obt ths (init ths n0 c).
 Proof.
-  intros t th x Eth Ex. unfold obtained; simpl. simpl in Ex.
+  intros t th x Eth Ex. unfold obtained, by_thread; simpl. simpl in Ex.
   rewrite nth_error_map, Eth in Ex. inv Ex. simpl.
   unfold first_pc. destruct (th_held th); simpl; now rewrite andb_false_r.
 Qed.
@@ -569,37 +806,41 @@ Proof.
             issued s' = iss ->
             (forall t' th' x', t <> t' -> nth_error ths t' = Some th' -> nth_error (ts s) t' = Some x' ->
                map snd (filter (fun q => Nat.eqb (fst q) t') iss) =
-               if th_commits th' && after_commit (t_pc x') then rangeN (t_reg x') (th_n th') else []) ->
+               if th_commits th' && after_commit (t_pc x') then rangeN (t_reg x') (count_of th' (t_reg x')) else []) ->
             map snd (filter (fun q => Nat.eqb (fst q) t) iss) =
-              (if th_commits th && after_commit p then rangeN r (th_n th) else []) ->
+              (if th_commits th && after_commit p then rangeN r (count_of th r) else []) ->
             Obt ths s') as K.
-  { intros p r iss Hts His Hother Hself t' th' x' Eth' Ex'. unfold obtained. rewrite His.
+  { intros p r iss Hts His Hother Hself t' th' x' Eth' Ex'. unfold obtained, by_thread. rewrite His.
     rewrite Hts in Ex'. destruct (Nat.eq_dec t t') as [<-|Hne].
     - rewrite (nth_error_upd_eq _ _ _ _ Ex) in Ex'. inv Ex'. rewrite Eth in Eth'. inv Eth'. exact Hself.
     - rewrite (nth_error_upd_ne _ _ _ _ Hne) in Ex'. eapply Hother; eauto. }
   assert (forall t' th' x', nth_error ths t' = Some th' -> nth_error (ts s) t' = Some x' ->
              map snd (filter (fun q => Nat.eqb (fst q) t') (issued s)) =
-             if th_commits th' && after_commit (t_pc x') then rangeN (t_reg x') (th_n th') else []) as O'.
+             if th_commits th' && after_commit (t_pc x') then rangeN (t_reg x') (count_of th' (t_reg x')) else []) as O'.
   { intros t' th' x' A B. exact (O _ _ _ A B). }
-  unfold obtained in Ot.
+  unfold obtained, by_thread in Ot.
   destruct (t_pc x) eqn:Epc; simpl in Ot; rewrite ?andb_false_r, ?andb_true_r in Ot.
-  - destruct (mtx s); [discriminate|]. inv Hs.
-    eapply K; [reflexivity|reflexivity|intros; eapply O'; eauto|]. simpl. now rewrite andb_false_r.
+  - destruct (mtx s); [discriminate|].
+    destruct (th_shared th); [|destruct (no_readers (readers s)); [|discriminate]]; inv Hs;
+      (eapply K; [reflexivity|reflexivity|intros; eapply O'; eauto|]); simpl; now rewrite andb_false_r.
   - destruct (wr s); [discriminate|]. inv Hs.
     eapply K; [reflexivity|reflexivity|intros; eapply O'; eauto|]. simpl. now rewrite andb_false_r.
-  - destruct (th_n th =? 0); inv Hs;
+  - destruct (reads th); inv Hs;
       (eapply K; [reflexivity|reflexivity|intros; eapply O'; eauto|]); simpl; now rewrite andb_false_r.
-  - inv Hs. eapply K; [reflexivity|reflexivity|intros; eapply O'; eauto|]. simpl. now rewrite andb_false_r.
+  - destruct (count_of th (t_reg x) =? 0); [|destruct (is_ext th)]; inv Hs;
+      (eapply K; [reflexivity|reflexivity|intros; eapply O'; eauto|]); simpl; now rewrite andb_false_r.
   - destruct (th_commits th) eqn:Ec; inv Hs.
     + eapply K; [reflexivity|reflexivity| |].
       * intros t' th' x' Hne A B. cbn [issued]. rewrite filter_app, map_app.
         rewrite (obtained_app_other t t' _ Hne), app_nil_r. eapply O'; eauto.
       * cbn [issued]. rewrite filter_app, map_app, Ot, obtained_app_self. reflexivity.
     + eapply K; [reflexivity|reflexivity|intros; eapply O'; eauto|]. simpl. exact Ot.
-  - inv Hs. eapply K; [reflexivity|reflexivity|intros; eapply O'; eauto|].
-    simpl in *. rewrite Ot. unfold after_tx. destruct (th_held th), (th_commits th); reflexivity.
-  - inv Hs. eapply K; [reflexivity|reflexivity|intros; eapply O'; eauto|]. simpl in *.
-    rewrite Ot. destruct (th_commits th); reflexivity.
+  - destruct (is_ext th || (th_n th =? 0)); inv Hs;
+      (eapply K; [reflexivity|reflexivity|intros; eapply O'; eauto|]);
+      simpl in *; rewrite Ot; unfold after_tx; destruct (th_held th), (th_commits th); reflexivity.
+  - destruct (th_shared th); inv Hs;
+      (eapply K; [reflexivity|reflexivity|intros; eapply O'; eauto|]); simpl in *;
+      rewrite Ot; destruct (th_commits th); reflexivity.
   - discriminate.
 Qed.
 
@@ -618,6 +859,7 @@ Proof.
   destruct (t_pc x); try discriminate;
     repeat match type of Es with
            | context [match ?c with _ => _ end] => destruct c; try discriminate
+           | context [if ?c then _ else _] => destruct c; try discriminate
            end; inv Es; simpl; unfold set_pc; now rewrite length_upd.
 Qed.
 
@@ -632,11 +874,12 @@ Qed.
 
 (** For every locking discipline and every schedule: when all requests have
     returned, each request whose transaction committed holds exactly [th_n]
-    consecutive indices, and a rolled back one holds none. *)
+    consecutive indices (recovery: the indices from the one it read through
+    its target), and a rolled back one holds none. *)
 Theorem each_request_obtains ths n0 cached sched s :
   exec ths (init ths n0 cached) sched = Some s -> terminated s = true ->
   forall t th, nth_error ths t = Some th ->
-    (th_commits th = true -> exists r, obtained s t = rangeN r (th_n th)) /\
+    (th_commits th = true -> exists r, obtained s t = rangeN r (count_of th r)) /\
     (th_commits th = false -> obtained s t = []).
 Proof.
   intros He T t th Eth.
@@ -649,4 +892,121 @@ Proof.
     apply nth_error_Some in H. lia. }
   pose proof (O _ _ _ Eth Ex) as Ot. rewrite (terminated_all_done _ T _ _ Ex) in Ot. simpl in Ot.
   split; intros Hc; rewrite Hc in Ot; simpl in Ot; eauto.
+Qed.
+
+(* ------------------------------------ the address cache covers what was obtained *)
+
+(** Whatever the locking: the address cache covers what was handed out.  A
+    request whose commit handler has run (it is past PCallback) and a recovery
+    that has written its rows have put every index they derived into the
+    address cache. *)
+Definition covered (th : thread) (x : tstate) : bool :=
+  if is_ext th then match t_pc x with PEnd | PCallback | PUnlock | PDone => true | _ => false end
+  else th_commits th && match t_pc x with PUnlock | PDone => true | _ => false end.
+
+Definition Cov (ths : list thread) (s : state) : Prop :=
+  forall t th x, nth_error ths t = Some th -> nth_error (ts s) t = Some x ->
+    covered th x = true -> incl (rangeN (t_reg x) (count_of th (t_reg x))) (cache s).
+
+Lemma init_cov ths n0 c : Cov ths (init ths n0 c).
+Proof.
+  intros t th x Eth Ex Hc. simpl in Ex. rewrite nth_error_map, Eth in Ex. inv Ex.
+  unfold covered in Hc. simpl in Hc. unfold first_pc in Hc.
+  destruct (is_ext th), (th_held th), (th_commits th); discriminate.
+Qed.
+
+Lemma step_cov ths s t s' : Cov ths s -> step ths s t = Some s' -> Cov ths s'.
+Proof.
+  intros C Hs. unfold step in Hs.
+  destruct (nth_error ths t) as [th|] eqn:Eth; [|discriminate].
+  destruct (nth_error (ts s) t) as [x|] eqn:Ex; [|discriminate].
+  (* generic: the cache only grows, only thread t changes *)
+  assert (forall p r extra,
+            ts s' = upd (ts s) t {| t_pc := p; t_reg := r |} ->
+            cache s' = cache s ++ extra ->
+            (covered th {| t_pc := p; t_reg := r |} = true ->
+               incl (rangeN r (count_of th r)) (cache s ++ extra)) ->
+            Cov ths s') as K.
+  { intros p r extra Hts Hca Hself t' th' x' Eth' Ex' Hc. rewrite Hca. rewrite Hts in Ex'.
+    destruct (Nat.eq_dec t t') as [<-|Hne].
+    - rewrite (nth_error_upd_eq _ _ _ _ Ex) in Ex'. inv Ex'. rewrite Eth in Eth'. inv Eth'. auto.
+    - rewrite (nth_error_upd_ne _ _ _ _ Hne) in Ex'.
+      intros i Hi. apply in_or_app. left. exact (C _ _ _ Eth' Ex' Hc i Hi). }
+  pose proof (C _ _ _ Eth Ex) as Ct.
+  destruct (t_pc x) eqn:Epc.
+  - destruct (mtx s); [discriminate|].
+    destruct (th_shared th); [|destruct (no_readers (readers s)); [|discriminate]]; inv Hs;
+      (eapply (K PBegin (t_reg x) []); [reflexivity|simpl; now rewrite app_nil_r|]);
+      unfold covered; simpl; destruct (is_ext th), (th_commits th); discriminate.
+  - destruct (wr s); [discriminate|]. inv Hs.
+    eapply (K PRead (t_reg x) []); [reflexivity|simpl; now rewrite app_nil_r|].
+    unfold covered; simpl; destruct (is_ext th), (th_commits th); discriminate.
+  - destruct (reads th); inv Hs.
+    + eapply (K PWrite (mem_view s) []); [reflexivity|simpl; now rewrite app_nil_r|].
+      unfold covered; simpl; destruct (is_ext th), (th_commits th); discriminate.
+    + eapply (K PWrite (t_reg x) []); [reflexivity|simpl; now rewrite app_nil_r|].
+      unfold covered; simpl; destruct (is_ext th), (th_commits th); discriminate.
+  - destruct (count_of th (t_reg x) =? 0) eqn:Ec0; [|destruct (is_ext th) eqn:Ee]; inv Hs.
+    + eapply (K PEnd (t_reg x) []); [reflexivity|simpl; now rewrite app_nil_r|].
+      intros _. apply N.eqb_eq in Ec0. rewrite Ec0. intros i [].
+    + eapply (K PEnd (t_reg x) (rangeN (t_reg x) (count_of th (t_reg x)))); [reflexivity|reflexivity|].
+      intros _ i Hi. apply in_or_app. now right.
+    + eapply (K PEnd (t_reg x) []); [reflexivity|simpl; now rewrite app_nil_r|].
+      unfold covered. rewrite Ee. simpl. rewrite andb_false_r. discriminate.
+  - destruct (th_commits th) eqn:Ecm; inv Hs.
+    + eapply (K PCallback (t_reg x) []); [reflexivity|simpl; now rewrite app_nil_r|].
+      unfold covered in *. rewrite Epc in Ct. simpl in *. destruct (is_ext th).
+      * intros _ i Hi. rewrite app_nil_r. exact (Ct eq_refl i Hi).
+      * rewrite andb_false_r. discriminate.
+    + eapply (K (after_tx th) (t_reg x) []); [reflexivity|simpl; now rewrite app_nil_r|].
+      unfold covered in *. rewrite Epc in Ct. simpl in *. destruct (is_ext th).
+      * intros _ i Hi. rewrite app_nil_r. exact (Ct eq_refl i Hi).
+      * rewrite Ecm. discriminate.
+  - destruct (is_ext th || (th_n th =? 0)) eqn:Eb; inv Hs.
+    + eapply (K (after_tx th) (t_reg x) []); [reflexivity|simpl; now rewrite app_nil_r|].
+      intros _. rewrite app_nil_r. unfold covered in Ct. rewrite Epc in Ct.
+      destruct (is_ext th) eqn:Ee; [exact (Ct eq_refl)|].
+      simpl in Eb. apply N.eqb_eq in Eb. unfold count_of, is_ext in *.
+      destruct (th_ext th); [discriminate|]. rewrite Eb. intros i [].
+    + apply orb_false_iff in Eb. destruct Eb as [Ee En].
+      eapply (K (after_tx th) (t_reg x) (rangeN (t_reg x) (th_n th))); [reflexivity|reflexivity|].
+      intros _ i Hi. apply in_or_app. right.
+      unfold count_of, is_ext in *. destruct (th_ext th); [discriminate|exact Hi].
+  - assert (covered th {| t_pc := PDone; t_reg := t_reg x |} = true ->
+            incl (rangeN (t_reg x) (count_of th (t_reg x))) (cache s ++ [])) as Hd.
+    { intros Hc. rewrite app_nil_r. apply Ct. unfold covered in *. rewrite Epc. simpl in *.
+      destruct (is_ext th); [reflexivity|exact Hc]. }
+    destruct (th_shared th); inv Hs;
+      (eapply (K PDone (t_reg x) []); [reflexivity|simpl; now rewrite app_nil_r|exact Hd]).
+  - discriminate.
+Qed.
+
+Lemma exec_cov ths sched : forall s s', Cov ths s -> exec ths s sched = Some s' -> Cov ths s'.
+Proof.
+  induction sched as [|t rest IH]; intros s s' C He; simpl in He.
+  - inv He. exact C.
+  - destruct (step ths s t) as [s1|] eqn:Es; [|discriminate].
+    eapply IH; [|exact He]. eapply step_cov; eauto.
+Qed.
+
+(** For every locking discipline and every schedule: when all requests have
+    returned, every index a committed transaction obtained is in the address
+    cache. *)
+Theorem cache_covers_obtained ths n0 cached sched s :
+  exec ths (init ths n0 cached) sched = Some s -> terminated s = true ->
+  forall t th, nth_error ths t = Some th -> th_commits th = true ->
+    incl (obtained s t) (cache s).
+Proof.
+  intros He T t th Eth Hc.
+  assert (Obt ths s) as O by (eapply exec_obt; eauto using init_obt).
+  assert (Cov ths s) as C by (eapply exec_cov; eauto using init_cov).
+  assert (length (ts s) = length ths) as L.
+  { rewrite (exec_length _ _ _ _ He). apply map_length. }
+  assert (exists x, nth_error (ts s) t = Some x) as [x Ex].
+  { destruct (nth_error (ts s) t) eqn:E; [eauto|]. exfalso.
+    apply nth_error_None in E. assert (nth_error ths t <> None) as H by congruence.
+    apply nth_error_Some in H. lia. }
+  pose proof (O _ _ _ Eth Ex) as Ot. pose proof (terminated_all_done _ T _ _ Ex) as Ed.
+  rewrite Ed, Hc in Ot. simpl in Ot. rewrite Ot.
+  apply (C _ _ _ Eth Ex). unfold covered. rewrite Ed, Hc. destruct (is_ext th); reflexivity.
 Qed.
